@@ -8,12 +8,14 @@ from .common import is_method_call, get_kw, recv_of
 from . import mergerules as mr
 from . import mergetrace as mt
 from . import tr
+from . import buildrules
 
 from .common import Guard  # noqa: E402
 
 PROP = 'C02'
 DECIDED = [
     'R1: Builder.flatten is a left fold over all stages (accumulator starts at stages[0], visits 1..n-1 in order, accumulator is the receiver of merge, result replaces stages); merge = premerge + on_merge with an empty path.',
+    'R1b: Builder.preprocess / flatten / build evaluated on tables of stage answers (see C06.R9): every stage takes part, in order, exactly once; the pre-merge result of the first stage is what the fold starts from.',
     'R2: path enumeration over one iteration of the key loop of the container merge: every key of the newer mapping is attached (new key), merged in place, attached as merge result, or removed - removal only under an explicit delete flag.',
     'R3: every removal from the older tree in the merge functions is control-dependent on a delete flag of the newer node; the list pre-filter keeps all non-deleting nodes.',
     'R4: leaf rule table: the newer value replaces the older unless the older has strictly higher priority.',
@@ -62,6 +64,16 @@ def r5(repo, run):
         if valid and not completes:
             bad.append('the valid index %r of a list of length %d is rejected' % (k, LEN))
         if not valid and completes:
+            # a completing path only counts when nothing the valuation leaves open could still depend on the keys: an undecided
+            # condition computed from the key collection (or from a helper object filled while scanning it) means "not known"
+            src = K[len('each('):-1] if K.startswith('each(') and K.endswith(')') else K
+            def _open(p_):
+                # (a condition that is a function of the key alone is decided - possibly by a TypeError - and is not "open")
+                return [t for t, pol in p_.facts if tr.eval_fact(t, sub) is None and (src in t or '$obj' in t or 'generated(' in t)
+                        and tr.eval_fact(t.replace(K, '0'), {'len(self)': LEN}) is None]
+            if all(_open(p_) for p_ in completes):
+                raise AnalysisError('ConfigList.on_merge_impl: whether the invalid key %r is rejected depends on a condition the analysis cannot evaluate (%s)' % (k, _open(completes[0])[0][:120]))
+            completes = [p_ for p_ in completes if not _open(p_)]
             bad.append('the out-of-range / invalid key %r is accepted for a list of length %d (merged as if it were a new entry): %s' % (k, LEN, tr.describe(completes[0], 8)))
         if not valid and isinstance(k, int) and not any(p.status == 'raise' and p.ret is not None and 'MergeError' in p.ret.text[:40] for p in feas):
             bad.append('the out-of-range key %r does not raise MergeError' % (k,))
@@ -141,6 +153,7 @@ def check(repo, run, tier):
     g = Guard()
     g(r6, repo, run)
     g(mr.flatten_fold, repo, run, 'C02.R1')
+    g(buildrules.builder_pipeline, repo, run, 'C02.R1b')
     g(mr.key_loop_paths, repo, run, 'C02.R2')
     g(mr.removal_guards, repo, run, 'C02.R3')
     g(mr.leaf_winner_table, repo, run, 'C02.R4')
